@@ -149,7 +149,14 @@ def alone(defn, pkt, k, opts):
 
 
 def serial(defn):
-    return zlib.crc32(_ET.tostring(defn.to_xml_tree()))
+    """Checksum of the definition written back to XML; a definition that can no longer be written is a value too (it is
+    compared with what the same call gave before anything was parsed)."""
+    try:
+        tree = defn.to_xml_tree()
+    except Exception as e:      # noqa: BLE001
+        library_exception(e)
+        return f"to_xml_tree raises {type(e).__name__}"
+    return zlib.crc32(_ET.tostring(tree))
 
 
 def same_io_error(e, injected):
